@@ -210,3 +210,47 @@ def integrity(ctx, rels):
                     if n.decorator_list or n.keywords:
                         bad.append('line %d: class %s has decorators/metaclass keywords' % (n.lineno, n.name))
         ctx.check('%s definitions and imports' % rel, not bad, '; '.join(bad[:6]), rel)
+
+
+# which rule sets decide the building blocks that live in a shared file
+FILE_RULESETS = {
+    'crysp/bits.py': ['C07', 'C08'],
+    'crysp/utils/operators.py': ['C08'],
+    'crysp/poly.py': ['C16'],
+    'crysp/padding.py': ['C09'],
+    'crysp/sha.py': ['C01', 'C04'],
+    'crysp/md.py': ['C01', 'C17'],
+    'crysp/keccak.py': ['C04'],
+    'crysp/aes.py': ['C02'], 'crysp/des.py': ['C02'], 'crysp/serpent.py': ['C02'], 'crysp/threefish.py': ['C02'],
+    'crysp/mode.py': ['C05'],
+    'crysp/blake.py': ['C11'],
+    'crysp/salsa20.py': ['C06'], 'crysp/chacha.py': ['C06'], 'crysp/rc4.py': ['C06'],
+    'crysp/skein.py': ['C12'], 'crysp/hmac.py': ['C13'], 'crysp/crc.py': ['C15'], 'crysp/wb.py': ['C18'],
+    'crysp/tlsh.py': ['C19'], 'crysp/nilsimsa.py': ['C19'],
+    'crysp/utils/perms.py': ['C20'], 'crysp/utils/knapsack.py': ['C20'],
+}
+
+
+def dependencies(ctx, files, own):
+    """Run the rule sets that decide the shared building blocks in the property's anchor files (each once per check).
+    A property that is anchored in bits.py / poly.py / padding.py ... is broken by a defect there, so those obligations
+    are part of this property's check; they are reported under a 'dep:' rule prefix."""
+    import importlib
+    done = ctx.notes.setdefault('_deps_done', [own])
+    if own not in done:
+        done.append(own)
+    for f in files:
+        for rs in FILE_RULESETS.get(f, []):
+            if rs in done:
+                continue
+            done.append(rs)
+            mod = importlib.import_module('sa.rules.' + rs)
+            before = len(ctx.obs)
+            saved_prop = ctx.prop
+            try:
+                mod.run(ctx)
+            finally:
+                ctx.prop = saved_prop
+            for o in ctx.obs[before:]:
+                if not o.rule.startswith('dep:'):
+                    o.rule = 'dep:%s %s' % (rs, o.rule)
